@@ -93,6 +93,17 @@ def quiet_logging() -> None:
     logging.disable(logging.CRITICAL)
 
 
+def quiet_stderr() -> None:
+    """Workers: drop what the code under test prints to stderr in-process (ANTLR's
+    console error listener reports every lexer error there). Harness errors of
+    a worker travel through its result file, not stderr. VERIF_DEBUG=1 keeps it."""
+    if os.environ.get("VERIF_DEBUG"):
+        return
+    dn = os.open(os.devnull, os.O_WRONLY)
+    os.dup2(dn, 2)
+    os.close(dn)
+
+
 def preload() -> None:
     """Import everything zorg needs once, in the parent, so forked children
     start with warm modules (a CLI call then costs ~0.1 s instead of ~1 s)."""
